@@ -86,4 +86,3 @@ func cmdFunc(args []string) {
 	}
 }
 
-func cmdCheck(args []string) {}
